@@ -7,6 +7,8 @@ package c06
 
 import (
 	"bytes"
+	"fmt"
+	"strconv"
 	"strings"
 	"unicode/utf16"
 )
@@ -16,10 +18,14 @@ type Attr struct {
 	V    string `json:"v,omitempty"`    // value (escaped on output unless Raw)
 	Huge int    `json:"huge,omitempty"` // value repeated up to this many bytes
 	Raw  bool   `json:"raw,omitempty"`  // value written verbatim (may contain '<', '&', quotes)
+	// Seq: every time the attribute is written (the element may be repeated through Rep of itself or of an ancestor) the value
+	// is V followed by a number that is distinct within the part and, through XMLPart.Salt, across the cases of a process:
+	// "n" decimal number, "s" salt in base 36 + "-" + counter, "h" six hex digits
+	Seq string `json:"seq,omitempty"`
 }
 
 type Node struct {
-	N     string `json:"n"`               // qualified name as written ("w:p")
+	N     string `json:"n"`               // qualified name as written ("w:p"); "#frag" writes the children only (a repeatable group of siblings)
 	A     []Attr `json:"a,omitempty"`     //
 	T     string `json:"t,omitempty"`     // character data (escaped) before the children
 	RawT  string `json:"rawt,omitempty"`  // raw markup before the children (entities, CDATA, comments, PIs, junk)
@@ -38,7 +44,8 @@ type XMLPart struct {
 	JunkAt int      `json:"junk_at,omitempty"`
 	Junk   string   `json:"junk,omitempty"` // raw bytes inserted at offset len*JunkAt/1000
 	UTF16  bool     `json:"utf16,omitempty"`
-	Ops    []string `json:"ops,omitempty"` // fault operators the generator applied (evidence only)
+	Ops    []string `json:"ops,omitempty"`  // fault operators the generator applied (evidence only)
+	Salt   int64    `json:"salt,omitempty"` // makes the values of Seq attributes differ from case to case
 }
 
 const stdDecl = `<?xml version="1.0" encoding="UTF-8" standalone="yes"?>` + "\n"
@@ -99,8 +106,23 @@ func escText(b *bytes.Buffer, s string) {
 }
 
 type writer struct {
-	b   bytes.Buffer
-	max int // repetition and nesting stop when the buffer reaches this size
+	b    bytes.Buffer
+	max  int // repetition and nesting stop when the buffer reaches this size
+	salt int64
+	seq  int64 // Seq attributes written so far
+}
+
+const fragName = "#frag"
+
+func (w *writer) seqValue(a *Attr) string {
+	w.seq++
+	switch a.Seq {
+	case "n":
+		return a.V + strconv.FormatInt(w.salt*100000+w.seq, 10)
+	case "h":
+		return a.V + fmt.Sprintf("%06X", (w.salt*7919+w.seq*104729)&0xFFFFFF)
+	}
+	return a.V + strconv.FormatInt(w.salt, 36) + "-" + strconv.FormatInt(w.seq, 10)
 }
 
 func (w *writer) left() int { return w.max - w.b.Len() }
@@ -113,6 +135,9 @@ func (w *writer) startTag(n *Node, selfClose bool) {
 		w.b.WriteString(a.N)
 		w.b.WriteString(`="`)
 		v := a.V
+		if a.Seq != "" {
+			v = w.seqValue(&a)
+		}
 		if a.Huge > 0 {
 			if v == "" {
 				v = "x"
@@ -156,6 +181,9 @@ func (w *writer) one(n *Node, parentPending *[]string) {
 		dn = n.N
 	}
 	deep := n.Deep
+	if dn == fragName {
+		deep = 0
+	}
 	if deep > 0 && deep*(2*len(dn)+5) > w.left() {
 		deep = w.left() / (2*len(dn) + 5)
 		if deep < 0 {
@@ -167,7 +195,14 @@ func (w *writer) one(n *Node, parentPending *[]string) {
 		w.b.WriteString(dn)
 		w.b.WriteByte('>')
 	}
-	if n.F == "selfclose" {
+	if n.N == fragName {
+		for i := range n.C {
+			w.node(&n.C[i], parentPending)
+			if w.left() <= 0 {
+				break
+			}
+		}
+	} else if n.F == "selfclose" {
 		w.startTag(n, true)
 	} else {
 		w.startTag(n, false)
@@ -205,10 +240,19 @@ var MaxPartBytes = 6 << 20
 
 // Bytes serialises the part.
 func (p *XMLPart) Bytes() []byte {
+	w := p.write()
+	if w == nil {
+		return nil
+	}
+	out := w.b.Bytes()
+	return p.finish(out)
+}
+
+func (p *XMLPart) write() *writer {
 	if p == nil {
 		return nil
 	}
-	w := &writer{max: MaxPartBytes}
+	w := &writer{max: MaxPartBytes, salt: p.Salt}
 	w.b.WriteString(prologBytes(p.Prolog))
 	if p.Root != nil {
 		var pending []string
@@ -218,7 +262,10 @@ func (p *XMLPart) Bytes() []byte {
 		}
 	}
 	w.b.WriteString(p.Trail)
-	out := w.b.Bytes()
+	return w
+}
+
+func (p *XMLPart) finish(out []byte) []byte {
 	if p.Junk != "" {
 		at := len(out) * clamp(p.JunkAt, 0, 1000) / 1000
 		n := make([]byte, 0, len(out)+len(p.Junk))
@@ -271,6 +318,9 @@ func (n *Node) skeleton(b *strings.Builder, depth int) {
 	for _, a := range n.A {
 		if a.Huge > 0 {
 			b.WriteString("@huge")
+		}
+		if a.Seq != "" {
+			b.WriteString("@seq")
 		}
 	}
 	if len(n.C) > 0 {
